@@ -737,6 +737,39 @@ class Normaliser:
             z = _index_loop_as_zip(s)
             if z is not None:
                 return [z]
+        # D3  `.. reduce(step, xs, init) ..`  ->  `_acc = init; for _x in xs: _acc = step(_acc, _x); .. _acc ..`  (the left fold
+        # IS the accumulating loop; a lambda step is applied in place; without an initial value the first item seeds the fold: not rewritten)
+        if isinstance(s, (ast.Assign, ast.AnnAssign, ast.Return, ast.Expr)) and getattr(s, 'value', None) is not None:
+            for c in walk_no_nested(s.value):
+                if not (isinstance(c, ast.Call) and attr_chain(c.func) in ('reduce', 'functools.reduce') and 'reduce' not in self.locals and 'functools' not in self.locals):
+                    continue
+                pos = list(c.args)
+                kws = {k.arg: k.value for k in c.keywords}
+                if len(pos) == 2 and set(kws) == {'initial'}:
+                    pos.append(kws['initial'])
+                elif kws or len(pos) != 3:
+                    continue
+                step, xs, init = pos
+                if any(isinstance(x, ast.Starred) for x in pos):
+                    continue
+                tag = f'{getattr(c, "lineno", 0)}_{getattr(c, "col_offset", 0)}'
+                acc, item = f'_acc_{tag}', f'_item_{tag}'
+                if isinstance(step, ast.Lambda):
+                    la = step.args
+                    ps = [a.arg for a in la.posonlyargs + la.args]
+                    if len(ps) != 2 or la.vararg or la.kwarg or la.kwonlyargs or la.defaults:
+                        continue
+                    from ..tables import _Subst
+                    applied: ast.AST = _Subst({ps[0]: ast.Name(id=acc, ctx=ast.Load()), ps[1]: ast.Name(id=item, ctx=ast.Load())}).visit(copy.deepcopy(step.body))
+                elif attr_chain(step) is not None:
+                    applied = ast.Call(func=step, args=[ast.Name(id=acc, ctx=ast.Load()), ast.Name(id=item, ctx=ast.Load())], keywords=[])
+                else:
+                    continue
+                self.locals |= {acc, item}
+                return [loc(ast.Assign(targets=[ast.Name(id=acc, ctx=ast.Store())], value=init)),
+                        loc(ast.For(target=ast.Name(id=item, ctx=ast.Store()), iter=xs,
+                                    body=[loc(ast.Assign(targets=[ast.Name(id=acc, ctx=ast.Store())], value=applied))], orelse=[])),
+                        _replace_in_copy(s, c, ast.Name(id=acc, ctx=ast.Load()))]
         return None
 
     def literal_match(self, v: ast.AST) -> T.Optional[T.Tuple[ast.AST, T.List[str]]]:
